@@ -3,7 +3,7 @@ import itertools, json, math, os, random, tempfile, shutil
 from fractions import Fraction
 import numpy as np
 from .. import tlc, cases
-from ..core import time_limit
+from ..core import time_limit, Unchanged
 
 D = 8
 LIM = 200000
@@ -105,6 +105,7 @@ def one_case(cid, rng, scheme, s, genic, cov, thorough):
     cls = getattr(importlib.import_module(pkg + name), name)
     c = {"id": cid, "scheme": scheme, "K": K, "D": D, "s": s, "genic": genic, "A": A.astype(int).tolist(), "u": u.astype(int).tolist(),
          "rhoM": rho_matrix(chroms), "err": None, "cls": name, "mem": repr(mem), "cov": cov}
+    guard = Unchanged(genotypes=pg, model=gm)
     try:
         with time_limit(120), np.errstate(all="ignore"):
             nself = math.inf if s == -1 else s
@@ -143,7 +144,7 @@ def one_case(cid, rng, scheme, s, genic, cov, thorough):
                                 ok = False
                         ents.append([list(par), t1 + 1, t2 + 1, f.numerator, f.denominator])
             c["entries"] = ents; c["lat"] = ok
-            c["labels"] = list(obj.taxa) == [pg.taxa[i] for i in pm] and sorted(pm) == list(range(n))
+            c["labels"] = list(obj.taxa) == [pg.taxa[i] for i in pm] and sorted(pm) == list(range(n)) and not guard.changed()
     except Exception as e:
         c["err"] = "%s: %s" % (type(e).__name__, str(e)[:200])
     c.setdefault("entries", []); c.setdefault("lat", False); c.setdefault("labels", True)
@@ -338,7 +339,7 @@ def run(ctx):
         v, k = verd[c["id"]]
         ctx.count(len(c["entries"]) or 1, repr((c["cls"], c["s"], c["A"], c["u"], c["rhoM"])))
         if not c["labels"]:
-            ctx.violation("%s.from_algmod:labels" % c["cls"], "taxa labels differ from the population's", None)
+            ctx.violation("%s.from_algmod:labels" % c["cls"], "taxa labels differ from the population's, or the call modified the genotype matrix / model it was given", None)
         if v != "ok":
             key = "%s.from_algmod:%s" % (c["cls"], v)
             det = {kk: c[kk] for kk in c if kk != "entries"}
